@@ -16,6 +16,7 @@ def all_atts(style_vals=(0, 1, 2)):
 
 class C01(PureCheck):
     pid = "C01"
+    warm_every = 2
     rule = ("every attribute record (9 fg x 9 bg x {absent,False,True}^6; quick: all 5,184 records without "
             "explicit False + sampled False variants) built through fmtstr(text, **kwargs) with 7 texts "
             "(empty, ASCII, controls, wide+combining, a combining mark / ZWJ alone in its run), plus multi-run values built with + (empty runs "
@@ -73,6 +74,8 @@ class C01(PureCheck):
         else:
             for t, a in runs:
                 f = f + fmtstr(enc.dec_text(t), **enc.dec_atts(a))
+        if enc.WARM:
+            enc.warm(f, enc.WARM)          # the value was looked at (.s / width / len / hash / str) before it is rendered
         if inp.get("derive"):
             if inp.get("render_first"):
                 str(f), len(f), f.s
